@@ -125,7 +125,7 @@ pub fn run_c20(ctx: &Ctx, sink: &mut Sink) {
             emit(sink, x, "special");
         }
     }
-    let n = ctx.budget(120_000, 4_000_000);
+    let n = ctx.budget(600_000, 8_000_000);
     for i in 0..n {
         if !ctx.mine(i) {
             continue;
@@ -341,7 +341,7 @@ pub fn run_c16(ctx: &Ctx, sink: &mut Sink) {
             paths(sink, *x, "boundary");
         }
     }
-    let n = ctx.budget(20_000, 1_000_000);
+    let n = ctx.budget(80_000, 2_000_000);
     for i in 0..n {
         if !ctx.mine(i) {
             continue;
@@ -352,7 +352,7 @@ pub fn run_c16(ctx: &Ctx, sink: &mut Sink) {
     }
     // ---- literals: the probe records what the parser made of each spelling; the exact value is
     //      computed offline from the spelling alone
-    let nl = ctx.budget(20_000, 1_000_000);
+    let nl = ctx.budget(120_000, 2_000_000);
     for i in 0..nl {
         if !ctx.mine(i) {
             continue;
@@ -401,7 +401,7 @@ fn gen_numbers(r: &mut Rng) -> (Vec<f64>, &'static str) {
 }
 
 pub fn run_c15(ctx: &Ctx, sink: &mut Sink) {
-    let n = ctx.budget(5_000, 300_000);
+    let n = ctx.budget(40_000, 600_000);
     let sess = Sess::new();
     let aggs = ["sum", "prod", "avg", "min", "max", "median"];
     for i in 0..n {
@@ -470,7 +470,7 @@ pub fn run_c15(ctx: &Ctx, sink: &mut Sink) {
 // C06 - output direction (in process); the input direction runs the CLI from Python
 
 pub fn run_c06(ctx: &Ctx, sink: &mut Sink) {
-    let n = ctx.budget(4_000, 200_000);
+    let n = ctx.budget(30_000, 400_000);
     for i in 0..n {
         if !ctx.mine(i) {
             continue;
